@@ -359,6 +359,16 @@ fn bad_operands() -> Vec<(Vec<String>, &'static str)> {
             v.push((e, "unknown-primary"));
         }
     }
+    // (appended: the table is indexed by position in saved cases)
+    // a user/group operand is a name or a string of digits; a mode is octal digits or a symbolic
+    // mode, and neither has blanks
+    for o in ["+0", " 0", "0 ", "+1000"] {
+        v.push((vec![s("-user"), s(o)], "-user"));
+        v.push((vec![s("-group"), s(o)], "-group"));
+    }
+    for o in [" 644", "644 ", "/ 1", "- 644", "-6 44"] {
+        v.push((vec![s("-perm"), s(o)], "-perm"));
+    }
     v
 }
 
@@ -750,7 +760,7 @@ fn gen_vec(g: &mut Gen) -> VecCase {
                     }
                 }
             }
-            _ => tokens.push(g.pick(&["-bogus", "word", "-", "--", "-newerxy", "-newermmx", "-H", "-L", "-O3", "+", ";", "{}"]).to_string()),
+            _ => tokens.push(g.pick(&["-bogus", "word", "-", "--", "-newerxy", "-newermmx", "-H", "-L", "-O3", "+", ";", "{}", "-help", "--help", "-version", "--version"]).to_string()),
         }
     }
     let flags = match g.below(6) {
@@ -794,6 +804,10 @@ fn weird_tree() -> TreeSpec {
     add("c/r/odd/future", Kind::File, Some((1, 54321)), Some((32_503_680_000, 999_999_999)), Some(0o000), 0);
     add("c/r/odd/epoch", Kind::File, None, Some((0, 0)), Some(0o7777), 5_000_000_000);
     add("c/r/odd/pre", Kind::File, None, Some((-1, 500)), None, 1);
+    // times that no calendar library represents (tmpfs keeps 64-bit seconds)
+    add("c/r/odd/far", Kind::File, None, Some((9_000_000_000_000, 0)), None, 1);
+    add("c/r/odd/farther", Kind::File, None, Some((10_000_000_000_000_000, 1)), None, 1);
+    add("c/r/odd/first", Kind::File, None, Some((i64::MIN, 0)), None, 1);
     add("c/r/pipe", Kind::Fifo, Some((54321, 54321)), None, None, 0);
     add("c/r/sock", Kind::Sock, None, None, None, 0);
     add("c/r/lnk_dangling", Kind::Link("no/where".into()), Some((54321, 54321)), None, None, 0);
@@ -948,6 +962,15 @@ fn probes() -> Vec<VecCase> {
         VecCase { flags: vec![], roots: vec![s("c/r"), s("c/missing")], tokens: vec![s("-exec"), s("no-such-command-xyz"), s(";"), s("-delete")], binary: true, raw_bytes_at: None, sinks: 1 << 4 },
         VecCase { flags: vec![], roots: vec![s("c/r"), s("c/missing")], tokens: vec![s("-exec"), s("no-such-command-xyz"), s("{}"), s("+")], binary: true, raw_bytes_at: None, sinks: 2 << 4 },
         VecCase { flags: vec![], roots: vec![s("c/r")], tokens: vec![s("-bogus")], binary: true, raw_bytes_at: None, sinks: 1 << 4 },
+        VecCase { flags: vec![], roots: vec![], tokens: vec![s("-help")], binary: true, raw_bytes_at: None, sinks: 1 },
+        VecCase { flags: vec![], roots: vec![], tokens: vec![s("--help")], binary: true, raw_bytes_at: None, sinks: 2 },
+        VecCase { flags: vec![], roots: vec![], tokens: vec![s("-version")], binary: true, raw_bytes_at: None, sinks: 1 },
+        VecCase { flags: vec![], roots: vec![s("c/r")], tokens: vec![s("--version")], binary: true, raw_bytes_at: None, sinks: 2 },
+        VecCase { flags: vec![], roots: vec![s("c/r/odd")], tokens: vec![s("-ls")], binary: false, raw_bytes_at: None, sinks: 0 },
+        VecCase { flags: vec![], roots: vec![s("c/r/odd")], tokens: vec![s("-printf"), s("%t %a %c %TY %T+ %Ak %CH %T@\\n")], binary: false, raw_bytes_at: None, sinks: 0 },
+        VecCase { flags: vec![], roots: vec![s("c/r/odd")], tokens: vec![s("-newermt"), s("jan 01, 2020")], binary: false, raw_bytes_at: None, sinks: 0 },
+        VecCase { flags: vec![], roots: vec![s("c/r/odd")], tokens: vec![s("-newer"), s("c/r/odd/far"), s("-o"), s("-mtime"), s("+1"), s("-o"), s("-mmin"), s("-5"), s("-o"), s("-newermm"), s("c/r/odd/first")], binary: false, raw_bytes_at: None, sinks: 0 },
+        VecCase { flags: vec![], roots: vec![s("c/r/odd")], tokens: vec![s("-fls"), s("c/out-fls")], binary: false, raw_bytes_at: None, sinks: 0 },
         VecCase { flags: vec![], roots: vec![s("c/r")], tokens: vec![s("-delete"), s("-ls")], binary: true, raw_bytes_at: None, sinks: 0x11 },
         // nesting (through the binary: an exhausted stack cannot be caught in process)
         VecCase { flags: vec![], roots: vec![s("c/r")], tokens: vec![s("@PARENS:200@")], binary: true, raw_bytes_at: None, sinks: 0 },
